@@ -24,24 +24,25 @@ var Introducers = []string{"Add", "AddRaw", "Set", "SetRaw", "WriteCas", "WriteC
 var Orders = []string{"only", "later-first", "later-after", "shorten", "lengthen", "preserve", "clear", "delete-clears", "past", "sibling-collection", "touch-shorten", "touch-lengthen"}
 
 type Spec struct {
-	Disk     bool
-	Intro    string
-	Order    string
-	Relative bool
-	Coll     int // collection of the document under test (0 default, 1 named)
-	Lead     int // seconds until the deadline (2 or 3)
+	Disk       bool
+	Intro      string
+	Order      string
+	Relative   bool
+	Coll       int    // collection of the document under test (0 default, 1 named)
+	Lead       int    // seconds until the deadline (2 or 3)
+	OtherIntro string // entry point that introduces the *other* (later) deadline in the later-first / later-after orders ("" = Set)
 }
 
 type Result struct {
-	Spec        Spec    `json:"spec"`
-	Deadline    int64   `json:"deadline"`
-	ShouldGo    bool    `json:"shouldExpire"`
-	GoneAfterMs int64   `json:"goneAfterDeadlineMs"` // -1 if still readable at the end
-	EventAfterMs int64  `json:"eventAfterDeadlineMs"`
-	CanaryLateMs int64  `json:"canaryLatenessMs"`
-	Reads       int     `json:"reads"`
-	Problems    []string `json:"problems"`
-	Incon       string  `json:"inconclusive,omitempty"`
+	Spec         Spec     `json:"spec"`
+	Deadline     int64    `json:"deadline"`
+	ShouldGo     bool     `json:"shouldExpire"`
+	GoneAfterMs  int64    `json:"goneAfterDeadlineMs"` // -1 if still readable at the end
+	EventAfterMs int64    `json:"eventAfterDeadlineMs"`
+	CanaryLateMs int64    `json:"canaryLatenessMs"`
+	Reads        int      `json:"reads"`
+	Problems     []string `json:"problems"`
+	Incon        string   `json:"inconclusive,omitempty"`
 }
 
 const Bound = 3 * time.Second
@@ -181,7 +182,7 @@ func RunOne(tmp string, s Spec) (res Result) {
 	// feeds on both collections: deletion events and their arrival time
 	var mu sync.Mutex
 	delAt := map[string]time.Time{} // "coll/key": first deletion event newer than the set-up
-	var setupCas atomic.Uint64        // CAS of the target after the set-up; deletions at or below it belong to the set-up
+	var setupCas atomic.Uint64      // CAS of the target after the set-up; deletions at or below it belong to the set-up
 	term := make(chan bool)
 	defer close(term)
 	for ci := 0; ci < 2; ci++ {
@@ -209,18 +210,33 @@ func RunOne(tmp string, s Spec) (res Result) {
 	var t0, t1 int64
 	wantAbsLo, wantAbsHi := int64(0), int64(0)
 	setWant := func(l uint32) { wantAbsLo, wantAbsHi = t0+int64(l), t1+int64(l) }
+	var otherColl *rosmar.Collection
+	var otherErr error
 	switch s.Order {
 	case "only":
 		t0, t1, err = introduce(c, s.Intro, key, lead, s.Relative)
 		setWant(lead)
 	case "later-first":
-		_ = c.Set("other", abs(time.Now().Unix(), far, s.Relative), nil, []byte(`{"o":1}`))
+		otherColl = c
+		if s.OtherIntro != "" {
+			_, _, otherErr = introduce(c, s.OtherIntro, "other", far, s.Relative && s.OtherIntro != "SetWithMeta")
+		} else {
+			otherErr = c.Set("other", abs(time.Now().Unix(), far, s.Relative), nil, []byte(`{"o":1}`))
+		}
 		t0, t1, err = introduce(c, s.Intro, key, lead, s.Relative)
 		setWant(lead)
 	case "later-after":
 		t0, t1, err = introduce(c, s.Intro, key, lead, s.Relative)
 		setWant(lead)
-		_ = other.Set("other", abs(time.Now().Unix(), far, s.Relative), nil, []byte(`{"o":1}`))
+		otherColl = other
+		if s.OtherIntro != "" {
+			if s.Lead%2 == 1 {
+				otherColl = c
+			}
+			_, _, otherErr = introduce(otherColl, s.OtherIntro, "other", far, s.Relative && s.OtherIntro != "SetWithMeta")
+		} else {
+			otherErr = other.Set("other", abs(time.Now().Unix(), far, s.Relative), nil, []byte(`{"o":1}`))
+		}
 	case "shorten":
 		_ = c.Set(key, abs(time.Now().Unix(), far, s.Relative), nil, []byte(`{"long":1}`))
 		if s.Intro == "Add" || s.Intro == "AddRaw" || s.Intro == "WriteCas" || s.Intro == "WriteCas+raw" || s.Intro == "WriteResurrectionWithXattrs" || s.Intro == "WriteWithXattrs" || s.Intro == "Incr" {
@@ -390,14 +406,9 @@ func RunOne(tmp string, s Spec) (res Result) {
 			problem("sibling", "a document of the other collection with a later deadline was deleted early")
 		}
 	}
-	if s.Order == "later-first" {
-		if _, _, rerr := c.GetRaw("other"); rerr != nil {
+	if (s.Order == "later-first" || s.Order == "later-after") && otherColl != nil && otherErr == nil {
+		if _, _, rerr := otherColl.GetRaw("other"); rerr != nil {
 			problem("early", "the document with the later deadline was deleted together with the earlier one")
-		}
-	}
-	if s.Order == "later-after" {
-		if _, _, rerr := other.GetRaw("other"); rerr != nil {
-			problem("early", "the document with the later deadline (other collection) was deleted together with the earlier one")
 		}
 	}
 	return
